@@ -48,8 +48,6 @@ def configs(tier):
         out.append({"w1": 1, "w2": 1, "ids": 3, "reads": 1, "inspect": False, "W": 5, "Ks": (76, 90, 110), "context_bound": 3})
         out.append({"w1": 1, "ids": 3, "W": 5, "Ks": (80, 100, 120)})
         out.append({"w1": 1, "ids": 3, "presize": 3, "W": 5, "Ks": (80, 100, 120)})
-        out.append({"w1": 2, "ids": 3, "W": 5, "Ks": (100, 120, 140)})
-        out.append({"w1": 1, "w2": 1, "ids": 3, "inspect": "flush", "W": 5, "Ks": (100, 120), "context_bound": 2})
         out.append({"w1": 2, "ids": 3, "inspect": "flush", "W": 5, "Ks": (90, 110)})
         out.append({"w1": 1, "w2": 1, "ids": 3, "W": 5, "Ks": (110, 130, 150), "context_bound": 2})
     return out
